@@ -3,6 +3,7 @@ import LJT.Ops.C07
 import LJT.Model.T81Enc
 import LJT.Model.DCT
 import LJT.Model.ProgHuff
+import LJT.Model.ArithEnc
 namespace LJT.Ops
 open LJT.T81 LJT.T81Enc
 
@@ -129,6 +130,21 @@ def opC04 : List String → Option String
     match LJT.ProgHuff.encodeFile w h comps qs ri script (c03CoefK seed kind) with
     | none => some "unencodable"
     | some bs => some s!"{bs.length} {fnv bs}"
+  -- arifile seed w h ri hs vs nc kind mode sseed : the whole arithmetic-coded file libjpeg-turbo must write (jcarith.c binarisation and
+  -- QM coder, DAC/SOS layout); mode 4 = sequential one scan, 5 = jpeg_simple_progression, 7 = seeded progressive script, 8 = seeded sequential script
+  | ["arifile", seed, w, h, ri, hs, vs, nc, kind, mode, sseed] => do
+    let seed ← nat? seed; let w ← nat? w; let h ← nat? h; let ri ← nat? ri; let hs ← nat? hs; let vs ← nat? vs; let nc ← nat? nc
+    let kind ← nat? kind; let mode ← nat? mode; let sseed ← nat? sseed
+    let comps := if nc == 1 then [(1, 1)] else [(hs, vs), (1, 1), (1, 1)]
+    let sc := LJT.DCT.qualityScaling 75
+    let qs := [LJT.DCT.scaleTable Gen.Src.std_luminance_quant_tbl sc true, LJT.DCT.scaleTable Gen.Src.std_chrominance_quant_tbl sc true]
+    let prog := mode == 5 || mode == 7
+    let script := if mode == 4 then [(List.range nc, 0, 63, 0, 0)]
+      else if mode == 5 then LJT.ProgHuff.simpleProgression nc
+      else if mode == 7 then c03ScriptProg sseed nc
+      else LJT.ArithEnc.seqScript sseed nc c07Mix
+    let bs := LJT.ArithEnc.encodeFile w h comps qs ri prog script (c03CoefK seed kind)
+    some s!"{bs.length} {fnv bs}"
   | ["susp", _, _, hex] => do
     let bytes ← hexBytes? hex
     match decode bytes with
